@@ -38,7 +38,9 @@ class Job:
                  unwind=None, strcap=32, timeout=None, tier='quick', cname=None, may_throw=None, srcrel=None,
                  extra_cflags=(), cbmc_flags=(), no_checks=False, stubs=(), self_const=None, arity=None,
                  inline_select=None, object_bits=None, lemma=False, defines=(), variant_of=None, kf=None,
-                 description='', cases=None, case=None, replay_ghost=(), replay_domain=None, variants=None, unwindset=None, assume=None, contract_name=None, sat=None, exclude_clauses=()):
+                 description='', cases=None, case=None, replay_ghost=(), replay_domain=None, variants=None, unwindset=None, assume=None, contract_name=None, sat=None, exclude_clauses=(), harness=None, enforce=True):
+        self.enforce = enforce   # False: the extracted body is used as is inside a relational lemma harness (DFCC allows one enforced call only)
+        self.harness = harness   # name of a /*@ harness-alt <name> */ section: a relational lemma harness around the function under contract
         self.exclude_clauses = tuple(exclude_clauses)   # clause ids left to another (slower) job of the same function
         self.sat = sat   # None = minisat2 (cbmc default), or 'cadical'
         self.assume = assume   # (C condition over harness inputs, justification): the job covers only these inputs
@@ -77,6 +79,11 @@ def nondet_for(ctype):
 
 
 def gen_harness(job, fi, contract):
+    if getattr(job, 'harness', None):
+        h = contract.alt_harness.get(job.harness)
+        if h is None:
+            raise ExtractError('%s: no /*@ harness-alt %s */ section' % (contract.path, job.harness))
+        return ('#line %d "%s"\n' % (h[1], contract.path)) + '\n'.join(h[2])
     if contract.harness is not None:
         return ('#line %d "%s"\n' % (contract.harness[1], contract.path)) + '\n'.join(contract.harness[2])
     L = ['void h_%s(void) {' % fi.cname, '  VERIF_GHOST_INIT', '  verif_ghost_idx = nondet_size_t(); verif_ghost_idx2 = nondet_size_t(); verif_ghost_idx3 = nondet_size_t(); verif_ghost_idx4 = nondet_size_t(); verif_ghost_int = nondet_int(); verif_ghost_int2 = nondet_int();']
@@ -254,15 +261,22 @@ def build_tu(proj, job):
         parts.append(ex.text)
         metas.append(dict(function=cfi.qualname, role='inlined helper', file=ex.srcrel, lines=list(ex.lines), sha256=ex.sha))
     # the function under contract
-    ex = T.extract_function(proj, fi, functable, real, job.srcrel, job.select, report, contract=contract,
-                            exclude_clauses=getattr(job, 'exclude_clauses', ()))
+    if not getattr(job, 'enforce', True):
+        # body without contract clauses (ghost captures / loop contracts of the contract file still apply)
+        import copy as _copy
+        c2 = _copy.copy(contract)
+        c2.clauses = []
+        ex = T.extract_function(proj, fi, functable, real, job.srcrel, job.select, report, contract=c2)
+    else:
+        ex = T.extract_function(proj, fi, functable, real, job.srcrel, job.select, report, contract=contract,
+                                exclude_clauses=getattr(job, 'exclude_clauses', ()))
     parts.append(ex.text)
     metas.insert(0, dict(function=fi.qualname, role='under contract', file=ex.srcrel, lines=list(ex.lines), sha256=ex.sha,
                          loop_contracts=ex.loops_spliced))
     parts.append('#define VERIF_GHOST_INIT ' + ' '.join(ghost_inits))
     parts.append(gen_harness(job, fi, contract))
     text = '\n'.join(parts) + '\n'
-    return dict(text=text, entry='h_' + fi.cname, cname=fi.cname, replace=replace_cnames, contract=contract,
+    return dict(text=text, entry='h_' + fi.cname, cname=(fi.cname if getattr(job, 'enforce', True) else None), replace=replace_cnames, contract=contract,
                 report=report, metas=metas, fi=fi, has_loops=bool(contract.loops), loop_lines=ex.loop_lines)
 
 
